@@ -12,6 +12,7 @@ Theorem C15_source_facts :
   processcfg_initialises_every_module = true /\
   descriptive_data_initialises_exported = true /\ shutdown_stops_pollers_first = true /\
   sorted_modules_reversed_postorder = true /\ pollthread_writes_then_reads_then_started = true /\
+  writeinitparams_absorbs_write_errors = true /\
   startmodule_starts_thread_iff_polled = true /\ initmodule_registers_at_io = true /\
   attached_get_checks = true /\ hasio_creates_io_once_per_uri = true /\
   multievent_set_only_when_all_triggered = true /\ 0 < start_timeout.
